@@ -53,8 +53,13 @@ Proof. exact prepared_instance_as_found_loses_level. Qed.
 Print Assumptions C18_prepared_instance_as_found_loses_level.
 
 (* (c) asynq stack *)
+
+(* for every chain of tasks, whatever frame state (live / kept after a failure / gone) and source
+   kind (line retrievable or not) each task has: one entry per task of the creator chain, each
+   naming its own task, outermost first, ending with the task itself *)
 Theorem C18_creator_chain : forall t,
-  traceback t = map tk_name (ancestors t) /\
+  traceback t = map entry_of (ancestors t) /\
+  map entry_name (traceback t) = map tk_name (ancestors t) /\
   last (ancestors t) t = t /\
   (exists r rest, ancestors t = r :: rest /\ tk_creator r = None) /\
   linked (ancestors t) /\
@@ -62,10 +67,33 @@ Theorem C18_creator_chain : forall t,
 Proof. exact creator_chain. Qed.
 Print Assumptions C18_creator_chain.
 
-Theorem C18_stack_depth_plus_one : forall cs, forallb by_parent cs = true ->
-  stack_in_deepest cs = level_names 0%Z (S (List.length cs)).
+(* the form of one entry: the "File .. in f" line iff the task has a frame whose source line can
+   be found; otherwise -- in particular when _traceback_line raises -- the str(task) text of that
+   same task; the failure never reaches past the task's own entry *)
+Theorem C18_entry_of_each_task : forall t,
+  entry_name (entry_of t) = tk_name t /\
+  (entry_of t = EFrame (tk_name t) <-> tk_frame t <> FrGone /\ tk_src t = SrcFile) /\
+  (entry_of t = EStr (tk_name t) <-> tk_frame t = FrGone \/ tk_src t = SrcNone) /\
+  (traceback_line t = None <-> tk_frame t <> FrGone /\ tk_src t = SrcNone).
+Proof. exact entry_of_spec. Qed.
+Print Assumptions C18_entry_of_each_task.
+
+(* every creation kind and every source kind at every level: format_asynq_stack() in the deepest
+   task names exactly the tasks of the statement's reading [expected_names] *)
+Theorem C18_stack_names : forall s0 cs,
+  map entry_name (stack_in_deepest s0 cs) = expected_names 0%Z [TL 0%Z] cs.
+Proof. exact stack_names. Qed.
+Print Assumptions C18_stack_names.
+
+Theorem C18_stack_depth_plus_one : forall s0 cs, forallb by_parent (map fst cs) = true ->
+  map entry_name (stack_in_deepest s0 cs) = level_names 0%Z (S (List.length cs)).
 Proof. exact stack_depth_plus_one. Qed.
 Print Assumptions C18_stack_depth_plus_one.
+
+Theorem C18_stack_entry_forms : forall s0 cs, forallb by_parent (map fst cs) = true ->
+  stack_in_deepest s0 cs = level_entries 0%Z (s0 :: map snd cs).
+Proof. exact stack_entry_forms. Qed.
+Print Assumptions C18_stack_entry_forms.
 
 (* the recursive code as found fails exactly when the chain is longer than the stack budget, and
    otherwise returns what the repaired loop returns *)
